@@ -2176,6 +2176,7 @@ func lemmaForwardSession(raw *rawEnvelope) (e *Session, e3 *Session, accepted bo
 //@   loop 0 step [C04] @request istype(c.transport.lastRecv, *RequestCommand) ==> onlyOn(0, 0, 1, 0, 0) && lastsent(channel.inReqCmdChan) == c.transport.lastRecv.(*RequestCommand)
 //@   loop 0 step [C04,C05] @response istype(c.transport.lastRecv, *ResponseCommand) ==> nsent(channel.inMsgChan) == 0 && nsent(channel.inNotChan) == 0 && nsent(channel.inReqCmdChan) == 0 && nsent(channel.inSesChan) == 0 && nsent(channel.inRespCmdChan) + ntrue("(*channel).trySubmitCommandResult") == 1
 //@   loop 0 step [C05] @unmatched istype(c.transport.lastRecv, *ResponseCommand) && nsent(channel.inRespCmdChan) == 1 ==> lastsent(channel.inRespCmdChan) == c.transport.lastRecv.(*ResponseCommand)
+//@   checks [C06] @clientadoptsterminal c.client && nsent(channel.inSesChan) == 1 && istype(c.transport.lastRecv, *Session) && step(recvSes(c).State) >= step(atiter(c.state)) ==> c.state == recvSes(c).State  ## a client that is told its session finished/failed stops being established, so later sends are refused
 //@   checks [C06] @streamsclosed closed(done) && closed(c.inMsgChan) && closed(c.inNotChan) && closed(c.inReqCmdChan) && closed(c.inRespCmdChan) && closed(c.inSesChan)
 
 // Syntactic census (C06): inbound streams are fed only by the receiver, the
